@@ -75,14 +75,35 @@ def extra_variants(spec):
         q.lines[i + 1:i + 1] = [Line("blank", [])] + head + member + [Line("td_close", [("}", "punct"), (";", "punct")])]
         q.meta["op"] = "X-type-after-function"
         yield q, "viol:Xtype"
+        # legal but rarely written global declarations with a parenthesised declarator, in a file with 3-4 functions
+        g2 = conf.Gen("c19decl/%s/%d/%d" % (spec["seed"], spec["shard"], k))
+        p2 = g2.c_file("test.c", nfuncs=r.choice([3, 4, 4]), header=False, comments=False)
+        first = next(i2 for i2, l in enumerate(p2.lines) if l.kind == "fhead")
+        decl = r.choice([
+            [("int", "type"), TAB(1), ("(", "punct"), ("*", "op:ptr"), ("g_pick", "id:global"), ("(", "punct"), ("int", "type"), SP,
+             ("n", "id:param"), (")", "punct"), (")", "punct"), (";", "punct")],
+            [("int", "type"), TAB(1), ("(", "punct"), ("(", "punct"), ("*", "op:ptr"), ("g_pick", "id:global"), (")", "punct"),
+             ("(", "punct"), ("int", "type"), SP, ("n", "id:param"), (")", "punct"), (")", "punct"), (";", "punct")],
+            [("static int", "kw"), TAB(1), ("*", "op:ptr"), ("(", "punct"), ("*", "op:ptr"), ("g_pick", "id:global"), ("(", "punct"),
+             ("int", "type"), SP, ("n", "id:param"), (")", "punct"), (")", "punct"), (";", "punct")]])
+        q2 = p2.copy()
+        q2.lines[first:first] = [Line("global", decl), Line("blank", [])]
+        q2.meta["op"] = "X-parenthesised-declarator"
+        yield q2, "viol:Xdecl"
 
 
 def run_shard(spec):
     sh = Shard(max_per_sig=3)
     r = random.Random("c19/%s/%d" % (spec["seed"], spec["shard"]))
     import itertools
+    header_only = "\n".join(l.text() for l in conf.Gen("h").header_lines("pred.c")) + "\n"
     for p, tag in itertools.chain(relwork.corpus(spec, header=False, nvar=4, force=("V71a",)), small_programs(spec),
                                   extra_variants(spec)):
+        if r.random() < 0.2:
+            # another file analysed just before in the same process (a header-only file, a comment-only file, nothing)
+            pk = r.choice(["header_only", "comment_only", "empty"])
+            relwork.obs_of("pred.c", {"header_only": header_only, "comment_only": "/* c */\n/* d */\n", "empty": ""}[pk])
+            sh.tally("relations", "preceded_by_" + pk)
         base, rb = relwork.obs_of(p.name, p.text())
         if base[0] != "ok":
             sh.count("c19.base_not_a_verdict")
